@@ -1,3 +1,145 @@
 import Driver.Common
--- stub driver (not yet implemented)
-def main : IO Unit := Driver.run () (fun s _ => (s, "bad-op"))
+import SSV.Model.Relay
+open SSV SSV.Relay
+
+/-
+Line protocol of ssv_c11 (one line in, one line out):
+  cfg <cap> <byaddr 0|1> <src 0|1> <shared 0|1|code>      reset; `shared=code` uses the regenerated Gen fact
+  recv <key> <src> none | ip <a> <port> <pl> | dom <d> <port> <pl>
+                                                          -> noop | new <sid> <qlen> | old <sid> <qlen>
+  initok <sid> | initfail <sid> | evict <sid>             -> ok | noop
+  take <sid>                                              -> noop | sent <ip> <port> <pl> | hit | resolving <d>
+  resolved <sid> <ip|fail>                                -> ok | noop
+  storeip <sid>                                           -> ok | noop
+  readsend <sid>                                          -> noop | sent <ip> <port> <pl>
+  pack <sid> <ip|fail|->   (take; if resolving: resolved, storeip; readsend — the real call at resolver-block granularity,
+                            `-` = no answer needed)       -> noop | sent … | failed | blocked <d>
+  down <sid> none | <srcip> <srcport> <pl>                -> noop | reply <to> <srcip>:<srcport>|- <pl>
+  facts                                                   -> shared=<b> recvok=<b> cleanupok=<b> fresh=<b>
+-/
+
+structure DSt where
+  cfg : Config
+  st : State
+
+def boolOf (s : String) : Bool := s == "1"
+
+def parsePkt : List String → Option (Option Pkt)
+  | ["none"] => some none
+  | ["ip", a, p, pl] => do some (some ⟨.ip (← a.toNat?) (← p.toNat?), ← pl.toNat?⟩)
+  | ["dom", d, p, pl] => do some (some ⟨.dom (← d.toNat?) (← p.toNat?), ← pl.toNat?⟩)
+  | _ => none
+
+def lastSent (old new : State) : String :=
+  if new.sent.length > old.sent.length then
+    match new.sent.getLast? with
+    | some w => s!"sent {w.ip} {w.port} {w.pkt.payload}"
+    | none => "noop"
+  else "noop"
+
+def qlen (st : State) (sid : Nat) : Nat := match st.sess sid with | some s => s.queue.length | none => 0
+
+def sessChanged (old new : State) (sid : Nat) : String :=
+  if old.sess sid == new.sess sid then "noop" else "ok"
+
+def stepC11 (d : DSt) (line : String) : DSt × String :=
+  match fields line with
+  | ["cfg", cap, ba, src, sh] =>
+    match cap.toNat? with
+    | some c =>
+      let shared := if sh == "code" then SSV.Gen.C11.packerShared else boolOf sh
+      ({ cfg := { cap := c, byAddr := boolOf ba, carriesSource := boolOf src, insertFirst := !codeRecvOK,
+                  packerOf := packerOfShared shared }, st := State.init }, "ok")
+    | none => (d, "bad-op")
+  | "recv" :: key :: src :: rest =>
+    match key.toNat?, src.toNat?, parsePkt rest with
+    | some k, some a, some r =>
+      let st' := recv d.cfg d.st k a r
+      let out :=
+        if st'.next > d.st.next then s!"new {d.st.next} {qlen st' d.st.next}"
+        else if st'.recvd.length > d.st.recvd.length then
+          match st'.table k with
+          | some sid => s!"old {sid} {qlen st' sid}"
+          | none => "noop"
+        else "noop"
+      ({ d with st := st' }, out)
+    | _, _, _ => (d, "bad-op")
+  | ["initok", sid] => match sid.toNat? with
+    | some i => let st' := initOk d.st i; ({ d with st := st' }, sessChanged d.st st' i)
+    | none => (d, "bad-op")
+  | ["initfail", sid] => match sid.toNat? with
+    | some i => let st' := initFail d.st i; ({ d with st := st' }, sessChanged d.st st' i)
+    | none => (d, "bad-op")
+  | ["evict", sid] => match sid.toNat? with
+    | some i => let st' := evict d.st i; ({ d with st := st' }, sessChanged d.st st' i)
+    | none => (d, "bad-op")
+  | ["take", sid] => match sid.toNat? with
+    | some i =>
+      let st' := take d.cfg d.st i
+      let out := match st'.sess i with
+        | some s => match s.pc with
+          | .resolving _ dm => s!"resolving {dm}"
+          | .storedIP _ => if d.st.sess i == st'.sess i then "noop" else "hit"
+          | _ => lastSent d.st st'
+        | none => "noop"
+      ({ d with st := st' }, out)
+    | none => (d, "bad-op")
+  | ["resolved", sid, ans] => match sid.toNat? with
+    | some i =>
+      let a := if ans == "fail" then none else ans.toNat?
+      let st' := resolved d.cfg d.st i a
+      ({ d with st := st' }, sessChanged d.st st' i)
+    | none => (d, "bad-op")
+  | ["storeip", sid] => match sid.toNat? with
+    | some i => let st' := storeIP d.cfg d.st i; ({ d with st := st' }, sessChanged d.st st' i)
+    | none => (d, "bad-op")
+  | ["readsend", sid] => match sid.toNat? with
+    | some i => let st' := readSend d.cfg d.st i; ({ d with st := st' }, lastSent d.st st')
+    | none => (d, "bad-op")
+  | ["pack", sid, ans] => match sid.toNat? with
+    | some i =>
+      let st1 := take d.cfg d.st i
+      match st1.sess i with
+      | some s =>
+        match s.pc with
+        | .resolving _ dm =>
+          if ans == "-" then ({ d with st := st1 }, s!"blocked {dm}") else
+          let a := if ans == "fail" then none else ans.toNat?
+          let st2 := resolved d.cfg st1 i a
+          match a with
+          | none => ({ d with st := st2 }, "failed")
+          | some _ =>
+            let st3 := readSend d.cfg (storeIP d.cfg st2 i) i
+            ({ d with st := st3 }, lastSent d.st st3)
+        | .storedIP _ =>
+          if d.st.sess i == st1.sess i then (d, "noop") else
+          let st3 := readSend d.cfg st1 i
+          ({ d with st := st3 }, lastSent d.st st3)
+        | _ => ({ d with st := st1 }, lastSent d.st st1)
+      | none => (d, "noop")
+    | none => (d, "bad-op")
+  | "down" :: sid :: rest => match sid.toNat? with
+    | some i =>
+      let r : Option (Option ((IP × Nat) × Payload)) := match rest with
+        | ["none"] => some none
+        | [a, p, pl] => do some (some ((← a.toNat?, ← p.toNat?), ← pl.toNat?))
+        | _ => none
+      match r with
+      | some r =>
+        let st' := down d.cfg d.st i r
+        let out := if st'.replies.length > d.st.replies.length then
+            match st'.replies.getLast? with
+            | some rp =>
+              let src := match rp.src with | some (a, p) => s!"{a}:{p}" | none => "-"
+              s!"reply {rp.to} {src} {rp.payload}"
+            | none => "noop"
+          else "noop"
+        ({ d with st := st' }, out)
+      | none => (d, "bad-op")
+    | none => (d, "bad-op")
+  | ["facts"] =>
+    (d, s!"shared={SSV.Gen.C11.packerShared} recvok={codeRecvOK} cleanupok={codeCleanupOK} fresh={SSV.Gen.C11.clientPackerFresh.all (·.2)}")
+  | _ => (d, "bad-op")
+
+def main : IO Unit :=
+  Driver.run { cfg := codeConfig 1024 true true, st := State.init } stepC11
